@@ -106,7 +106,19 @@ def _run_unit(unit_name, defines=(), canary=None, seed=0, rlimit=None, tag='main
             # in a canary run only the rejection of the canaries matters: after an injected `assert(false)`
             # the rest of the function is checked under a false assumption and may wander
             if not canary:
-                hard.append('rlimit: ' + msg)
+                # the solver gave up inside ONE function: no verdict for that function's obligations (the check treats it
+                # as tentative); it must not hide a definite rejection elsewhere in the unit
+                fn_hit = None
+                for sp in d.get('spans', []):
+                    lm = lines.get(str(sp['line_start'])) or {}
+                    if lm.get('fn'):
+                        fn_hit = lm['fn']
+                        break
+                if fn_hit:
+                    failures.append({'fn': fn_hit, 'clause': 'rlimit', 'kind': 'rlimit', 'message': 'resource limit exceeded (no verdict)',
+                                     'out_line': None, 'src': None, 'rendered': d.get('rendered', '')})
+                else:
+                    hard.append('rlimit: ' + msg)
             else:
                 # the solver gave up before proving the injected `assert(false)`: the canary is NOT proved
                 for sp in d.get('spans', []):
